@@ -35,6 +35,9 @@ func (w *Worker) repairModel(vals map[*Term]uint64) map[string]uint64 {
 		sort.Ints(idx)
 	}
 	for _, h := range w.hashes {
+		if h.concrete {
+			continue
+		}
 		memo := map[*Term]uint64{}
 		in := make([]byte, len(h.in))
 		for i, t := range h.in {
